@@ -1,4 +1,4 @@
-use crate::element::SvgElement;
+use crate::element::{ClipRegion, SvgElement};
 use crate::errors::{Result, SvgdxError};
 use crate::events::InputEvent;
 use crate::expression::eval_attr;
@@ -327,18 +327,37 @@ impl TransformerContext {
         }
         // ... and work back from its end: what each clip path lets through is the box
         // of its content, clipped by the next one.
-        let mut inner: Option<(&SvgElement, Option<BoundingBox>)> = None;
+        let mut inner: Option<(&SvgElement, ClipRegion)> = None;
         for clip_el in clip_els.into_iter().rev() {
-            let mut clip_bbox = clip_el.local_bbox()?;
-            if let (Some(own), Some((inner_el, inner_bbox))) = (clip_bbox, inner) {
-                clip_bbox = inner_el.clip(own, inner_bbox, self);
+            let mut region = match clip_el.local_bbox()? {
+                Some(own) => ClipRegion::Box(own),
+                None if clip_el.has_child_elements(self) => ClipRegion::Unknown,
+                None => ClipRegion::Nothing,
+            };
+            if let (ClipRegion::Box(own), Some((inner_el, inner_region))) = (region, inner) {
+                region = match inner_el.clip(own, inner_region) {
+                    Some(left) => ClipRegion::Box(left),
+                    None => ClipRegion::Nothing,
+                };
             }
-            inner = Some((clip_el, clip_el.transformed(clip_bbox)?));
+            if let ClipRegion::Box(own) = region {
+                region = match clip_el.transformed(Some(own))? {
+                    Some(own) => ClipRegion::Box(own),
+                    None => ClipRegion::Unknown,
+                };
+            }
+            inner = Some((clip_el, region));
         }
         Ok(match inner {
-            Some((clip_el, clip_bbox)) => clip_el.clip(bbox, clip_bbox, self),
+            Some((clip_el, region)) => clip_el.clip(bbox, region),
             None => Some(bbox),
         })
+    }
+
+    /// As `get_element_bbox()` clips the box of a recorded element: for the box of an
+    /// element which is being generated.
+    pub fn clip_bbox(&self, el: &SvgElement, bbox: BoundingBox) -> Result<Option<BoundingBox>> {
+        self.apply_clip_path(el, bbox)
     }
 }
 
@@ -416,6 +435,11 @@ impl TransformerContext {
             config: self.config.clone(),
             local_style_id: self.local_style_id.clone(),
         }
+    }
+
+    /// The settings, if they are no longer those of `then`
+    pub fn config_changed_since(&self, then: &Surroundings) -> Option<TransformConfig> {
+        (format!("{:?}", self.config) != format!("{:?}", then.config)).then(|| self.config.clone())
     }
 
     /// The position in the random sequence
